@@ -1,20 +1,16 @@
-/* libstdc++ functions that stay out-of-line when a TU is lowered with -fno-inline (tuflags): explicit
- * instantiations that exist in libstdc++.so and are trivial.  Referenced with models=['noinline.c']. */
-#include <stdint.h>
-void _ZNSaIcEC2Ev(void *a) { }                    /* std::allocator<char>::allocator() */
+/* std::allocator<char> constructors/destructor: extern template instantiations of libstdc++ that stay out of line
+ * when a TU is lowered with -fno-inline.  They are empty. */
 void _ZNSaIcEC1Ev(void *a) { }
-void _ZNSaIcEC2ERKS_(void *a, void *b) { }        /* copy */
+void _ZNSaIcEC2Ev(void *a) { }
 void _ZNSaIcEC1ERKS_(void *a, void *b) { }
-void _ZNSaIcED2Ev(void *a) { }
+void _ZNSaIcEC2ERKS_(void *a, void *b) { }
 void _ZNSaIcED1Ev(void *a) { }
-/* std::ostream::operator<<(integer): out-of-line wrappers of _M_insert<T> (modelled in stream.c) */
-void *_ZNSo9_M_insertIlEERSoT_(void *o, uint64_t v);
-void *_ZNSo9_M_insertImEERSoT_(void *o, uint64_t v);
-void *_ZNSo9_M_insertIxEERSoT_(void *o, uint64_t v);
-void *_ZNSo9_M_insertIyEERSoT_(void *o, uint64_t v);
-void *_ZNSo9_M_insertIbEERSoT_(void *o, _Bool v);
-void *_ZNSolsEl(void *o, uint64_t v) { return _ZNSo9_M_insertIlEERSoT_(o, v); }
-void *_ZNSolsEm(void *o, uint64_t v) { return _ZNSo9_M_insertImEERSoT_(o, v); }
-void *_ZNSolsEx(void *o, uint64_t v) { return _ZNSo9_M_insertIxEERSoT_(o, v); }
-void *_ZNSolsEy(void *o, uint64_t v) { return _ZNSo9_M_insertIyEERSoT_(o, v); }
-void *_ZNSolsEb(void *o, _Bool v) { return _ZNSo9_M_insertIbEERSoT_(o, v); }
+void _ZNSaIcED2Ev(void *a) { }
+/* header-inlined basic_ios state queries, out of line under -fno-inline: `this` is the basic_ios subobject whose
+ * state word sits at +32 (badbit 1, eofbit 2, failbit 4) - the same layout models/stream.c relies on */
+#include <stdint.h>
+_Bool _ZNKSt9basic_iosIcSt11char_traitsIcEE4failEv(void *ios) { return (*(uint32_t *)((char *)ios + 32) & 5) != 0; }
+_Bool _ZNKSt9basic_iosIcSt11char_traitsIcEE3eofEv(void *ios) { return (*(uint32_t *)((char *)ios + 32) & 2) != 0; }
+_Bool _ZNKSt9basic_iosIcSt11char_traitsIcEE4goodEv(void *ios) { return *(uint32_t *)((char *)ios + 32) == 0; }
+_Bool _ZNKSt9basic_iosIcSt11char_traitsIcEE3badEv(void *ios) { return (*(uint32_t *)((char *)ios + 32) & 1) != 0; }
+_Bool _ZNKSt9basic_iosIcSt11char_traitsIcEEntEv(void *ios) { return (*(uint32_t *)((char *)ios + 32) & 5) != 0; }
